@@ -272,6 +272,19 @@ def suites(tier, seed):
             flt.append({"entry": "steps", "text": "\n".join(lines) + rnd.choice(["", "\n"]), "lang": (None if lang == "en" else lang), "fault": [where, name]})
             flt.append({"entry": "scenario", "text": "\n".join([scen_line] + lines) + "\n", "lang": (None if lang == "en" else lang),
                         "fault": [where + 1, name]})
+    # And / But as the very first step below a Background that has no steps (title only), at feature and at rule level
+    for first in ("And x", "But x"):
+        for lines, where in (
+                (["Feature: F", "  Background:", "  Scenario: S", "    " + first], 4),
+                (["Feature: F", "  Background:", "    " + first], 3),
+                (["Feature: F", "  Background: named", "", "  Scenario: S", "    " + first, "    Given y"], 5),
+                (["Feature: F", "  Rule: R", "    Background:", "    Scenario: S", "      " + first], 5),
+                (["Feature: F", "  Rule: R", "    Background:", "      " + first], 4),
+                (["Feature: F", "  Background:", "  Rule: R", "    Background:", "    Scenario: S", "      " + first], 6),
+                (["Feature: F", "  Scenario: S", "    " + first], 3)):
+            flt.append({"entry": "feature", "text": "\n".join(lines) + "\n", "lang": None, "fault": [where, "and-without-step"]})
+            if lines[1].startswith("  Rule"):
+                flt.append({"entry": "rule", "text": "\n".join(l[2:] for l in lines[1:]) + "\n", "lang": None, "fault": [where - 1, "and-without-step"]})
     # the tags entry point: tag text with blank and comment lines, one faulty line at a known place
     for _ in range(120 if thorough else 40):
         tl = [rnd.choice(["@a @b", "@c", "", "   ", "# note", "  @d  # x", "@e"]) for _ in range(rnd.randint(1, 7))]
